@@ -1849,13 +1849,16 @@ func (e *Engine) deleteSeriesRange(seriesKeys [][]byte, min, max int64) error {
 				continue
 			}
 
-			// See if this series was found in the cache earlier
-			i := bytesutil.SearchBytes(deleteKeys, k)
+			// See if this series was found in the cache earlier. Its cache keys start with the
+			// series key followed by the field separator (the bare series key is also a prefix
+			// of the keys of other series, e.g. host=a of host=ab).
+			prefix := append(append([]byte(nil), k...), keyFieldSeparatorBytes...)
+			i := bytesutil.SearchBytes(deleteKeys, prefix)
 
 			var hasCacheValues bool
 			// If there are multiple fields, they will have the same prefix.  If any field
 			// has values, then we can't delete it from the index.
-			for i < len(deleteKeys) && bytes.HasPrefix(deleteKeys[i], k) {
+			for i < len(deleteKeys) && bytes.HasPrefix(deleteKeys[i], prefix) {
 				if e.Cache.Values(deleteKeys[i]).Len() > 0 {
 					hasCacheValues = true
 					break
